@@ -891,6 +891,24 @@ def inject_hint(src, ed, fn, where, kind, name, ordinal, entry):
     ed.insert(pos, "\n" + entry.get("body").rstrip("\n") + "\n", "inject-hint")
 
 
+def r11_unmut_param(src, ed, fn, name):
+    """R11: `fn f(mut x: T) { body }`  ==>  `fn f(x_0: T) { let mut x = x_0; body }`
+    (Rust's own meaning of a `mut` by-value parameter).  Verus cannot name the entry value of a mutated
+    by-value parameter inside loop invariants; after R11 it is the immutable parameter `x_0`."""
+    lo, hi = fn.params
+    hits = [i for i in range(lo + 1, hi) if src.is_(i, "mut", "ident") and src.is_(i + 1, name, "ident")
+            and src.is_(i + 2, ":") and (src.is_(i - 1, "(") or src.is_(i - 1, ","))]
+    if len(hits) != 1:
+        raise Drift("fn %s: parameter `mut %s` not found" % (fn.key, name))
+    i = hits[0]
+    if not fn.body:
+        raise Drift("fn %s has no body" % fn.key)
+    ed.replace(src.toks[i].start, src.toks[i + 1].end, name + "_0", "R11",
+               "mut by-value parameter renamed; rebinding inserted at body start")
+    ed.insert(src.toks[fn.body[0]].end, "\n        let mut %s = %s_0;" % (name, name), "R11",
+              "rebinding of the former `mut` parameter")
+
+
 if __name__ == "__main__":
     # debugging aid: list items and functions of a file
     p = sys.argv[1]
